@@ -1,0 +1,11 @@
+//! Verification hooks for `store::redb_store` (compiled only with `--cfg eigerco_lumina_verif`).
+
+use super::*;
+
+impl RedbStore {
+    /// Diagnostic only: how many clones of the store's inner state exist besides the store's own,
+    /// i.e. how many `spawn_blocking` closures (queued or running) still hold the database.
+    pub fn verif_inflight_refs(&self) -> usize {
+        Arc::strong_count(&self.inner).saturating_sub(1)
+    }
+}
